@@ -142,6 +142,28 @@ def run(res, tier, build_ok):
                                       "%s built with %s=%d: decoding the CDB it built gives %s=%s" % (c["cls"], a, v0, k, dz.get(k)),
                                       {"class": c["cls"], "argument": a, "value": v0, "cdb": bytes(cz.cdb).hex(), "decoded": dz.get(k)})
                         break
+                # size arguments at the boundaries of their field, as far as the buffer that goes with them stays a lazily
+                # mapped allocation (≤ 128 MiB): the CDB must carry the argument, not a clamped one
+                if a in c01.size_params(c) and not isinstance(kw.get("data"), (bytes, bytearray)):
+                    mult = 3072 if c["cls"] == "ReadCd" else ((kw.get("blocksize") or 1) if a in ("tl", "nb") else 1)
+                    for v0 in sorted({(1 << b) + dlt for b in range(9, f["width"] + 1) for dlt in (-1, 0, 1)} | {0x5555, 0x5556, 0xAAAB}):
+                        if v0 >= (1 << f["width"]) or v0 * mult > (1 << 27):
+                            continue
+                        kwz = dict(kw)
+                        kwz[a] = v0
+                        try:
+                            cz = cls(op, **kwz)
+                        except Exception:
+                            continue
+                        cdbz = bytes(cz.cdb)
+                        del cz
+                        dz = cls.unmarshall_cdb(bytearray(cdbz))
+                        res.count("constructor-built CDB with a large size argument decoded back")
+                        if dz.get(k) != v0:
+                            res.violation("cls=%s built decode arg=%s" % (c["cls"], a),
+                                          "%s built with %s=%d: decoding the CDB it built gives %s=%s" % (c["cls"], a, v0, k, dz.get(k)),
+                                          {"class": c["cls"], "argument": a, "value": v0, "cdb": cdbz.hex(), "decoded": dz.get(k)})
+                            break
                 if a in c01.size_params(c) and kw[a] + 1 > 4096:
                     continue
                 kw2 = dict(kw)
